@@ -237,6 +237,7 @@ def run(ctx):
 
     unary_kept(chk, fb)
     converter_step(chk, fb)
+    outer_unary_placement(chk, fb)
 
 
 def unary_kept(chk, fb, RID="R03.5"):
@@ -361,3 +362,34 @@ def converter_step(chk, fb, RID="R03.6"):
             else:
                 chk.ok(RID, "reduction step %d" % n, "", loc(b["span"]))
     chk.floor(RID, "reduction steps (general trips) analysed", n, 1)
+
+
+def outer_unary_placement(chk, fb, RID="R03.7"):
+    """R03.7: deep -> flat.  The unary composition of a (sub-)expression is applied AFTER everything inside it: in flatten_vecs it is
+    appended-after onto the unary composition of the flat node / of the operator applied last - receiver = the flat element's
+    own composition, argument = the deep expression's.  The other way round applies the inner operators last."""
+    chk.rule(RID, "deep -> flat: the expression's own unary composition is composed onto the flat element's (`flat.unary_op.append_after(deep.unary_op)`), never the other way round")
+    fv = fb.find_bodies(lambda b: b["kind"] == "Fn" and b["path"].endswith("flat::flatten_vecs"))
+    if len(fv) != 1:
+        chk.violation(RID, "anchor", "flat::flatten_vecs not found")
+        return
+    b = fv[0]
+    org = dom.Origins(b)
+    dparam = None
+    for i in range(1, b["arg_count"] + 1):
+        if "deep::DeepEx<" in b["locals"][i]["ty"]:
+            dparam = org.name(i)
+    n = 0
+    for bi, t in mir.calls(b):
+        cp = mir.callee_path(t) or ""
+        if not (cp.endswith("UnaryOp::<T>::append_after") or cp.endswith("UnaryOp::<T>::append_after_iter")) or len(t["args"]) != 2:
+            continue
+        n += 1
+        recv, other = (org.expand_named(org.op_term(a)) for a in t["args"])
+        own = r"::unary_op\(param:%s\)" % re.escape(dparam or "?")
+        if re.search(own, other) and not re.search(own, recv):
+            chk.ok(RID, "outer unary composed onto the flat element (call %d)" % n, recv[-60:], loc(t["span"]))
+        else:
+            chk.violation(RID, "placement", "flatten_vecs composes %s after %s: the unary operators of the expression itself have to be appended after those of its flat node / last operator" % (
+                other[:80], recv[:80]), loc(t["span"]))
+    chk.floor(RID, "compositions of the outer unary operator in flatten_vecs", n, 2)
